@@ -256,7 +256,10 @@ NearMisses(p) ==
   \cup {[p EXCEPT ![k] = MkTok(p[k].sep, "q")] : k \in DOMAIN p}                      \* replace
   \cup {[p EXCEPT ![k] = Flip(p[k])] : k \in DOMAIN p}                                \* '/' <-> ':'
   \cup {p \o <<MkTok(":", "v")>>, p \o <<MkTok(":", "w")>>, p \o <<MkTok("/", "")>>,
-        p \o <<MkTok("/", "u")>>, <<MkTok("/", "")>> \o p}
+        p \o <<MkTok("/", "u")>>, <<MkTok("/", "")>> \o p,
+        \* more than the one trailing slash the mux forgives, and an empty segment inside
+        p \o <<MkTok("/", ""), MkTok("/", "")>>, p \o <<MkTok("/", ""), MkTok("/", ""), MkTok("/", "")>>}
+  \cup {SubSeq(p, 1, k) \o <<MkTok("/", "")>> \o SubSeq(p, k + 1, Len(p)) : k \in 1..(Len(p) - 1)}
 Canon(tm) == CHOOSE p \in Instances(tm) : TRUE
 Paths(rs) == UNION {Instances(rs[k].tmpl) \cup NearMisses(Canon(rs[k].tmpl)) : k \in DOMAIN rs} \ {<<>>}
 
